@@ -79,6 +79,26 @@ TRUE = ('ci', 1, 1)
 FALSE = ('ci', 0, 1)
 
 
+class Term(tuple):
+    """a term node that remembers its hash: terms are DAGs with heavy sharing (path conditions, unrolled loops), and a plain
+    tuple re-hashes its whole unfolding every time it is used as a dictionary key or set element"""
+
+    def __hash__(self):
+        d = self.__dict__
+        h = d.get('_h')
+        if h is None:
+            h = tuple.__hash__(self)
+            d['_h'] = h
+        return h
+
+    __eq__ = tuple.__eq__
+    __ne__ = tuple.__ne__
+
+
+def T(t):
+    return Term(t) if type(t) is tuple else t
+
+
 def mk_and(a, b):
     if a == TRUE:
         return b
@@ -86,9 +106,9 @@ def mk_and(a, b):
         return a
     if a == FALSE or b == FALSE:
         return FALSE
-    if a == b:
+    if a is b or a == b:
         return a
-    return ('and', a, b)
+    return Term(('and', a, b))
 
 
 def mk_or(a, b):
@@ -108,7 +128,7 @@ def mk_or(a, b):
             for j in (1, 2):
                 if a[i] == b[j] and a[3 - i] == mk_not(b[3 - j]):
                     return a[i]
-    return ('or', a, b)
+    return Term(('or', a, b))
 
 
 def mk_not(a):
@@ -118,7 +138,7 @@ def mk_not(a):
         return TRUE
     if a[0] == 'not':
         return a[1]
-    return ('not', a)
+    return Term(('not', a))
 
 
 def fconst(v):
@@ -434,7 +454,7 @@ class Sym:
         for inst in b["insts"]:
             op = inst["op"]
             if op == "phi":
-                self.val[inst["id"]] = self._phi(inst, incoming[b["id"]])
+                self.val[inst["id"]] = T(self._phi(inst, incoming[b["id"]]))
                 continue
             ops = inst["ops"]
             if op == "br":
@@ -471,7 +491,7 @@ class Sym:
                 continue
             if op == "resume":
                 continue
-            self.val[inst["id"]] = self._inst(inst, bc, b, incoming)
+            self.val[inst["id"]] = T(self._inst(inst, bc, b, incoming))
 
     def _edge(self, src, dst, cond, incoming):
         if (src, dst) in self.cut:
@@ -503,12 +523,11 @@ class Sym:
                     ec = mk_or(ec, c)
             pairs.append((ec, self.operand(o)))
         # all equal?
-        vals = {v for _, v in pairs}
-        if len(vals) == 1:
+        if all(v is pairs[0][1] or v == pairs[0][1] for _, v in pairs):
             return pairs[0][1]
         t = pairs[-1][1]
         for c, v in reversed(pairs[:-1]):
-            t = ('sel', c, v, t)
+            t = Term(('sel', c, v, t))
         return t
 
     def _vec_elems(self, v, n, ety):
@@ -1019,7 +1038,7 @@ class Sym:
             return None
         t = pairs[-1][1]
         for c, v in reversed(pairs[:-1]):
-            t = ('sel', c, v, t)
+            t = Term(('sel', c, v, t))
         return t
 
     def iv_step(self, phi_id):
@@ -1768,16 +1787,18 @@ def bit_xor(a, b):
     return _top(a, b)
 
 
-def to_bits(t, width, atom_width=None, memo=None):
-    """Abstract bit vector (LSB first) of an integer term."""
+def to_bits(t, width, atom_width=None, memo=None, env=None):
+    """Abstract bit vector (LSB first) of an integer term.  env: input bits known on the path to this sub-term (facts of
+    the select conditions above it), used when the arms of a select are merged."""
     if memo is None:
         memo = {}
-    if t in memo:
-        return memo[t]
-    r = _to_bits(t, width, atom_width or {}, memo)
+    key = (t, width, env)
+    if key in memo:
+        return memo[key]
+    r = _to_bits(t, width, atom_width or {}, memo, env)
     if len(r) != width:
         r = (r + [0] * width)[:width]
-    memo[t] = r
+    memo[key] = r
     return r
 
 
@@ -1796,7 +1817,41 @@ def _term_width(t):
     return None
 
 
-def _to_bits(t, width, aw, memo):
+def _bit_facts(c, aw, memo):
+    """({input bit: value} known when condition c holds, {..} known when it does not hold).  `expr == K` fixes every bit of
+    expr, hence every input bit that some bit of expr IS (an early exit "no set bits left above position i", a special
+    case "x == 1"); `x < 2^k` fixes the bits from k upwards to zero."""
+    E = {}
+    if not isinstance(c, tuple) or not c:
+        return E, E
+    if c[0] == 'not':
+        a, b = _bit_facts(c[1], aw, memo)
+        return b, a
+    if c[0] in ('and', 'or'):
+        (a1, b1), (a2, b2) = _bit_facts(c[1], aw, memo), _bit_facts(c[2], aw, memo)
+        both = lambda p, q: {k: v for k, v in p.items() if q.get(k) == v}
+        either = lambda p, q: {**p, **q}
+        return (either(a1, a2), both(b1, b2)) if c[0] == 'and' else (both(a1, a2), either(b1, b2))
+    if c[0] == 'cmp' and c[1] in ('eq', 'ne'):
+        x, y = c[2], c[3]
+        if x[0] == 'ci':
+            x, y = y, x
+        if y[0] == 'ci' and y[2] <= 64:
+            bits = to_bits(x, y[2], aw, memo)
+            z = {(b[1], b[2]): (y[1] >> j) & 1 for j, b in enumerate(bits) if isinstance(b, tuple) and b[0] == 'in'}
+            return (z, E) if c[1] == 'eq' else (E, z)
+    if c[0] == 'cmp' and c[1] in ('ult', 'ule', 'ugt', 'uge') and (c[3][0] == 'ci' or c[2][0] == 'ci'):
+        x, y, p = (c[2], c[3], c[1]) if c[3][0] == 'ci' else (c[3], c[2], {'ult': 'ugt', 'ule': 'uge', 'ugt': 'ult', 'uge': 'ule'}[c[1]])
+        bound = y[1] if p in ('ult', 'uge') else y[1] + 1          # x < bound  <=>  the condition (ult/ule) or its negation (uge/ugt)
+        if bound > 0 and bound & (bound - 1) == 0 and y[2] <= 64:
+            k = bound.bit_length() - 1
+            bits = to_bits(x, y[2], aw, memo)
+            z = {(b[1], b[2]): 0 for b in bits[k:] if isinstance(b, tuple) and b[0] == 'in'}
+            return (z, E) if p in ('ult', 'ule') else (E, z)
+    return E, E
+
+
+def _to_bits(t, width, aw, memo, env=None):
     h = t[0]
     if h == 'ci':
         return [(t[1] >> i) & 1 for i in range(width)]
@@ -1814,32 +1869,32 @@ def _to_bits(t, width, aw, memo):
         inner = t[3]
         iw = _term_width(inner) or aw.get(inner) or width
         if k == 'zext':
-            b = to_bits(inner, iw, aw, memo)
+            b = to_bits(inner, iw, aw, memo, env)
             return (b + [0] * width)[:width]
         if k == 'sext':
-            b = to_bits(inner, iw, aw, memo)
+            b = to_bits(inner, iw, aw, memo, env)
             return (b + [b[-1]] * width)[:width]
         if k == 'trunc':
-            b = to_bits(inner, max(iw, width), aw, memo)
+            b = to_bits(inner, max(iw, width), aw, memo, env)
             return b[:width]
     if h == 'op':
         o = t[1]
         w = _term_width(t) or width
         if o in ('and', 'or', 'xor'):
-            a, b = to_bits(t[3], w, aw, memo), to_bits(t[4], w, aw, memo)
+            a, b = to_bits(t[3], w, aw, memo, env), to_bits(t[4], w, aw, memo, env)
             f = {'and': bit_and, 'or': bit_or, 'xor': bit_xor}[o]
             return [f(x, y) for x, y in zip(a, b)][:width]
         if o == 'shl' and t[4][0] == 'ci':
-            a = to_bits(t[3], w, aw, memo)
+            a = to_bits(t[3], w, aw, memo, env)
             s = t[4][1]
             return ([0] * s + a)[:w][:width]
         if o == 'lshr' and t[4][0] == 'ci':
-            a = to_bits(t[3], w, aw, memo)
+            a = to_bits(t[3], w, aw, memo, env)
             s = t[4][1]
             return (a[s:] + [0] * s)[:width]
         if o == 'add':
             # addition of bit-disjoint values is or; otherwise carries make everything above the lowest overlap unknown
-            a, b = to_bits(t[3], w, aw, memo), to_bits(t[4], w, aw, memo)
+            a, b = to_bits(t[3], w, aw, memo, env), to_bits(t[4], w, aw, memo, env)
             out = []
             carry = 0
             for x, y in zip(a, b):
@@ -1850,12 +1905,12 @@ def _to_bits(t, width, aw, memo):
                     carry = _top(x, y, carry) if not isinstance(carry, int) else _top(x, y)
             return out[:width]
         if o == 'mul' and t[4][0] == 'ci' and t[4][1] & (t[4][1] - 1) == 0 and t[4][1] > 0:
-            a = to_bits(t[3], w, aw, memo)
+            a = to_bits(t[3], w, aw, memo, env)
             s = t[4][1].bit_length() - 1
             return ([0] * s + a)[:w][:width]
     if h == 'fn' and t[1].startswith("llvm.x86.bmi.pdep") and t[4][0] == 'ci':
         w = _term_width(t) or width
-        src = to_bits(t[3], w, aw, memo)
+        src = to_bits(t[3], w, aw, memo, env)
         mask = t[4][1]
         out = []
         k = 0
@@ -1867,8 +1922,22 @@ def _to_bits(t, width, aw, memo):
                 out.append(0)
         return out[:width]
     if h == 'sel':
-        a, b = to_bits(t[2], width, aw, memo), to_bits(t[3], width, aw, memo)
-        return [x if x == y else _top(x, y) for x, y in zip(a, b)]
+        ft, ff = _bit_facts(t[1], aw, memo)
+        e0 = dict(env or ())
+        ft, ff = {**e0, **ft}, {**e0, **ff}
+        a = to_bits(t[2], width, aw, memo, frozenset(ft.items()) if ft else None)
+        b = to_bits(t[3], width, aw, memo, frozenset(ff.items()) if ff else None)
+        out = []
+        for x, y in zip(a, b):
+            if x == y:
+                out.append(x)
+            elif x in (0, 1) and isinstance(y, tuple) and y[0] == 'in' and ft.get((y[1], y[2])) == x:
+                out.append(y)          # where the condition holds that input bit has this very value, so "is that input bit" describes both arms
+            elif y in (0, 1) and isinstance(x, tuple) and x[0] == 'in' and ff.get((x[1], x[2])) == y:
+                out.append(x)
+            else:
+                out.append(_top(x, y))
+        return out
     deps = frozenset((a, -1) for a in atoms(t))
     return [('top', deps)] * width
 
